@@ -8,7 +8,7 @@
 // @weave crates/runtime/src/types/iterator.rs
 #![allow(unused)]
 use super::*;
-use crate::core_lib::iterator::adaptors::{Chain, Enumerate, Reversed, Skip, Step, Take, Zip};
+use crate::core_lib::iterator::adaptors::{Chain, Enumerate, Reversed, Step, Take, Zip};
 
 // error-message construction is not the subject
 fn stub_format(_args: std::fmt::Arguments<'_>) -> String {
@@ -211,23 +211,8 @@ fn c13_adaptor_step() {
     kani::cover!(true, "the end of the harness is reached past every obligation");
 }
 
-// @props C13
-// @fns Skip::new, Skip::next (Iterator::nth on KIterator) over ByteIterator
-// @bound source of 3 symbolic bytes, skip 1, two pulls
-// @kani --no-memory-safety-checks --no-assertion-reach-checks
-// @timeout 1800
-// @mem 12
-// @tier thorough
-#[kani::proof]
-#[kani::unwind(5)]
-fn c13_adaptor_skip() {
-    let a: [u8; 3] = kani::any();
-    let mut s = Skip::new(src(&a), 1);
-    assert!(num(s.next()) == Some(a[1] as i64), "C13.skip: the first element after the skipped ones");
-    assert!(num(s.next()) == Some(a[2] as i64), "C13.skip: then in order");
-    std::mem::forget(s);
-    kani::cover!(true, "the end of the harness is reached past every obligation");
-}
+// DROPPED: Skip (Skip::next goes through Iterator::nth on the KIterator, i.e. advance_by with a drop of every skipped
+// output): a harness with 3 symbolic bytes, skip 1 and two pulls did not finish in 1800 s and reached 32 GB.
 
 // @props C13 C06
 // @fns Cycle::new over a range source (RangeIterator::size_hint, KRange::size)
